@@ -48,6 +48,8 @@ func C07(ctx *core.Ctx) {
 	ctx.Rule("C07.R3", "unsubscribe reaches workers: the loop's quit channel is closed exactly once on Unsubscribe's success path and the broker subscription is cancelled", 4)
 	ctx.Rule("C07.R4", "ack discipline: a message is acknowledged only on the nil-error edge of the callback", 1)
 	ctx.Rule("C07.R11", "a STOMP subscriber acknowledges off its consuming goroutine (a synchronous Conn.Ack deadlocks with go-stomp's read loop under back-pressure)", 1)
+	c07SubjectAgreement(ctx, r)
+	c07SubscriptionIdentity(ctx, r)
 	ctx.Rule("C07.R6", "fresh channels per subscriber transport instance", 4)
 	ctx.Rule("C07.R7", "no drop between broker and workers: the subscription handler hands each message to the work queue with a plain (back-pressure) send", 1)
 	c07PerMessage(ctx, r)
